@@ -116,7 +116,10 @@ def build_pool(tier="quick", parts=("A", "M", "K", "K1"), model_tier=None):
     if "M" in parts:
         # regression anchors: the example input of every recorded finding of
         # every property (repaired or open) stays in the pool explicitly
-        xs = [("X", e) for e in core.known_examples() if isinstance(e, str)]
+        # (only the accepted ones: consumers mutate pool programs on the
+        # premise that the original is an accepted program)
+        xs = [("X", e) for e in core.known_examples()
+              if isinstance(e, str) and core.parse_outcome(e)[0] == "ok"]
         pool += xs
         sizes["X"] = len(xs)
     if "K" in parts:
